@@ -23,6 +23,7 @@ func registerModels(e *Engine) {
 	registerStrings(e)
 	registerTime(e)
 	registerContext(e)
+	registerJSON(e)
 }
 
 const modelPkgPath = "github.com/regclient/regclient/internal/zzmodel"
